@@ -524,9 +524,18 @@ func runC19(r *Run, p *Prog) {
 				}
 			}
 			// presence: on unix && !abstract paths, Remove precedes listen and unlink follows a successful listen
+			// an edge is infeasible under the assumption "unix and not abstract" if every way of taking it contradicts it
 			forbidOther := func(a, b *ssa.BasicBlock) bool {
-				fs := T.edgeFactsOn(a, b)
-				return unixFact(fs, a, false) || abstractFact(fs, a, true)
+				alts := T.edgeAlternatives(a, b)
+				if len(alts) == 0 {
+					return false
+				}
+				for _, fs := range alts {
+					if !(unixFact(fs, a, false) || abstractFact(fs, a, true)) {
+						return false
+					}
+				}
+				return true
 			}
 			reach, w := reachInstr(su, nil, func(i ssa.Instruction) bool { return i == listenCall }, isRemove, func(a, b *ssa.BasicBlock) bool {
 				if forbidOther(a, b) {
@@ -860,8 +869,14 @@ func nonEmptyFact(f Fact, isIt func(term string) bool) bool {
 // isValueOf: the term (as produced by T.T for an operand of a comparison in block `at` of fn) denotes a value
 // whose possible definitions are exactly `alts` (resolved through field loads by reaching stores).
 func isValueOf(ms *MemState, fn *ssa.Function, term string, at *ssa.BasicBlock, alts []string) bool {
-	// find the operand values of the terminating If of `at` (and of its dominators) with this term
+	// find a value of the function with this term (dominators of `at` first, then anywhere: a condition kept in a local
+	// bool is evaluated in a block that need not dominate its use)
+	var blocks []*ssa.BasicBlock
 	for b := at; b != nil; b = b.Idom() {
+		blocks = append(blocks, b)
+	}
+	blocks = append(blocks, fn.Blocks...)
+	for _, b := range blocks {
 		for _, in := range b.Instrs {
 			v, ok := in.(ssa.Value)
 			if !ok {
